@@ -598,6 +598,33 @@ func hasDotStarPrefix(re *syntax.Regexp) bool {
 		(first.Sub[0].Op == syntax.OpAnyChar || first.Sub[0].Op == syntax.OpAnyCharNotNL)
 }
 
+// isDotStarLiteral reports whether the pattern is exactly a greedy, line-bound `.*`
+// followed by nothing but a case-sensitive literal (`.*\.txt`, `(.*)\.txt`).
+// Only then is "line start .. last occurrence of the literal on the line" the
+// leftmost-first match, which is what ReverseSuffixSearcher's matchStartZero
+// fast path returns without running an automaton.
+func isDotStarLiteral(re *syntax.Regexp) bool {
+	if !hasDotStarPrefix(re) {
+		return false
+	}
+	for re.Op == syntax.OpCapture && len(re.Sub) > 0 {
+		re = re.Sub[0]
+	}
+	first := re.Sub[0]
+	for first.Op == syntax.OpCapture && len(first.Sub) > 0 {
+		first = first.Sub[0]
+	}
+	if first.Flags&syntax.NonGreedy != 0 || first.Sub[0].Op != syntax.OpAnyCharNotNL {
+		return false
+	}
+	for _, sub := range re.Sub[1:] {
+		if sub.Op != syntax.OpLiteral || sub.Flags&syntax.FoldCase != 0 {
+			return false
+		}
+	}
+	return true
+}
+
 // isWildcardSubexpression checks if a subexpression acts as a "wildcard" that can
 // consume variable-length input. Used by isSafeForReverseSuffix to identify patterns
 // suitable for reverse suffix search.
